@@ -130,6 +130,10 @@ class ExprMixin:
             return self.opaque("attr")
         if isinstance(o.sort, tuple) and o.sort[0] == "Opt" and o.sort[1] == REF:
             o = unopt(o)
+        if "attr" in self.m.hooks:
+            r = self.m.hooks["attr"](self, o, n.attr, st, old)
+            if r is not NotImplemented:
+                return r
         if n.attr in getattr(self.m, "props", {}):
             r = self.m.props[n.attr](self, o, st, old)
             if r is not NotImplemented:
@@ -391,6 +395,10 @@ class ExprMixin:
                 dd = dict(getattr(self.m, "defaultdicts", {}))
                 dd.update(self.cur_contract.get("defaultdicts", {}))
                 ddname = n.value.attr if isinstance(n.value, ast.Attribute) else (n.value.id if isinstance(n.value, ast.Name) else None)
+                if self.spec_mode and ddname in dd and getattr(self, "comp_side", None) is not None:
+                    # inside a comprehension of the code: defaultdict read without modelling the insertion
+                    dflt = T(s[2], dd[ddname])
+                    return T(s[2], f"(ite {is_some(e).s} {unopt(e).s} {dflt.s})")
                 if not self.spec_mode and ddname in dd:
                     # defaultdict: reading a missing key inserts the default and returns it
                     dflt = T(s[2], dd[ddname])
@@ -670,7 +678,7 @@ class ExprMixin:
                 return "map", binder
             return None, None
         v = self.ev(it, st, old)
-        if "iter" in self.m.hooks and isinstance(v, T):
+        if "iter" in self.m.hooks and hasattr(v, "sort"):
             v = self.m.hooks["iter"](self, v, st) or v
         if isinstance(v, tuple) and v and v[0] in ("zip", "enum") and isinstance(target, ast.Tuple) and len(target.elts) == 2 and all(isinstance(t, ast.Name) for t in target.elts):
             def binder(tag, v=v):
